@@ -193,7 +193,7 @@ class ForInIterator:
 class ForOfIterator:
     """Iterator for for-of loops."""
 
-    def __init__(self, values: Union[List, JSArray]):
+    def __init__(self, values: Union[List, JSArray, JSTypedArray]):
         self.values = values
         self.index = 0
 
@@ -201,6 +201,12 @@ class ForOfIterator:
         """Return (value, done)."""
         # An array is read as it is now: elements added during the loop are visited
         values = self.values
+        if isinstance(values, JSTypedArray):
+            if self.index >= values.length:
+                return None, True
+            value = values.get_index(self.index)
+            self.index += 1
+            return value, False
         if isinstance(values, JSArray):
             values = values._elements
         if self.index >= len(values):
@@ -875,7 +881,7 @@ class VM:
             elif isinstance(iterable, list):
                 values = list(iterable)
             elif isinstance(iterable, JSTypedArray):
-                values = [iterable.get_index(i) for i in range(iterable.length)]
+                values = iterable
             else:
                 raise JSTypeError(f"{self._describe(iterable)} is not iterable")
             self.stack.append(ForOfIterator(values))
